@@ -81,12 +81,23 @@ def f1_case(problem_entry):
 
 def run_e2e(report, n_fonts, rng):
     formats = ["picosvg", "picosvg", "untouchedsvg", "picosvgz", "picosvg", "untouchedsvgz"]
-    for i in range(n_fonts):
-        fmt = formats[i % len(formats)]
+    H = '<svg xmlns="http://www.w3.org/2000/svg" viewBox="0 0 100 100"'
+    # directed sources first: paint inherited from the root element or a group (icon-set style)
+    inherited = [
+        H + ' fill="red"><path d="M10,10 L40,10 L40,40 L10,40 Z"/><path d="M50,50 L80,50 L80,70 Z" fill="blue"/></svg>',
+        H + '><g fill="#00ff00"><path d="M10,60 L40,60 L40,90 L10,90 Z"/><g fill="blue"><path d="M50,10 L90,10 L70,45 Z"/></g></g></svg>',
+    ]
+    directed = [(f, [(build.filename_for((0x1F600 + k,)), t, (0x1F600 + k,)) for k, t in enumerate(inherited)]) for f in ("untouchedsvg", "untouchedsvgz", "picosvg")]
+    for i in range(len(directed) + n_fonts):
+        if i < len(directed):
+            fmt, srcs = directed[i]
+            over = dict(color_format=fmt)
+        else:
+            fmt = formats[i % len(formats)]
+            over = e2e.gen_config(rng, fmt)
+            over["pretty_print"] = rng.random() < 0.5
+            docs, srcs = e2e.gen_sources(rng, n=rng.randint(1, 6))
         raw = fmt.startswith("untouched")
-        over = e2e.gen_config(rng, fmt)
-        over["pretty_print"] = rng.random() < 0.5
-        docs, srcs = e2e.gen_sources(rng, n=rng.randint(1, 6))
         case = dict(kind="e2e", format=fmt, config={k: str(v) for k, v in over.items()}, sources=[s[1] for s in srcs])
         try:
             font, cfg, picos, data = build.build_inprocess(over, srcs)
